@@ -149,6 +149,18 @@ CLAIMED = {
              "simulator applying only accepted writes.",
         note="Panics inside minimq are excluded only by the runs. envContract: publish succeeds when can_publish was true.",
         tech="Lean 4 proofs (case analysis of the handler) + refinement check against the real client + oracle"),
+    "C17": dict(
+        text="Lean 4 theorems on a model of the _dispatch state machine shared by async_.py and sync.py, the tail of _do and "
+             "_Path.normalize: after registering a fresh correlation data ANY message sequence leaves the request completed "
+             "exactly once with the result of its own messages (Continue payloads in arrival order + non-empty Ok payload, or the "
+             "error code/text) or still in flight with the payloads so far; outcome depends only on the subsequence of own "
+             "messages (interleaving independence); foreign topic / missing or unknown cd / missing code change nothing; "
+             "normalize returns empty-or-absolute. Every run drives BOTH real Python clients (through stub paho/aiomqtt "
+             "modules) and the Lean model on random concurrent request histories with interleaved, duplicate, late and "
+             "malformed messages and compares each caller's result; an independent reference reading of the history is the oracle.",
+        note="Thread/asyncio scheduling is not modelled: dispatcher steps are atomic (they are, per client, by the GIL + paho "
+             "callback thread / single event loop). uuid1 freshness is a hypothesis. Trusted: stub MQTT modules, pydriver.py.",
+        tech="Lean 4 proof (induction over message lists) + model-vs-implementation correspondence against both real Python clients"),
 }
 
 PENDING = "not yet built in this framework (work in progress; see DESIGN.md §10 order of work)"
